@@ -144,14 +144,9 @@ def hardening_product():
 
 def host_runner_enabled():
     """The scenarios that leave the contexts the way the library's own multi-server host does
-    (`server_manager.run_command`) are generated once `known_findings.json` has an entry for them (keys ending in
-    `/run_command`): on the tree of this writing they FAIL (finding C16-run-command-*, fix
-    fixes/C16-run-command-exit-in-entering-task.diff), and a check must not raise a new alarm on an unchanged tree."""
-    from .. import core
-    try:
-        return any(k.get("property") == "C16" and str(k.get("key", "")).endswith("/run_command") for k in core.load_known_findings())
-    except Exception:  # noqa: BLE001
-        return False
+    (`server_manager.run_command`).  They failed on the pinned tree (findings/C16-run-command-*.json)
+    and hold since the repair 2fe68b4 in /repo; they are always generated."""
+    return True
 
 
 def host_runner_product():
